@@ -1,23 +1,37 @@
 PROP = dict(
         coq="Properties/C17.v",
-        tie_coq=["Properties/TieC17.v"],
+        tie_coq=["Properties/TieC17.v", "Properties/TieC17Band.v"],
         workloads=[
             dict(name="market-random", go_test="TestC17", runner="C17",
                  env=dict(quick=dict(VERIF_CASES=400), thorough=dict(VERIF_CASES=6000))),
             dict(name="market-exhaustive", go_test="TestC17", runner="C17", tiers=("thorough",),
                  env=dict(thorough=dict(VERIF_EXHAUSTIVE=7))),
+            dict(name="band-pipeline", go_test="TestC17Band", runner="C17-band",
+                 env=dict(quick=dict(VERIF_CASES=150), thorough=dict(VERIF_CASES=4000))),
         ],
-        rule="case = (window size n in 1..6, gap, 1-3 assets, 5-40 ops: direct UpdatePriceList samples and whole market.BeginBlocker runs "
+        rule="market-*: case = (window size n in 1..6, gap, 1-3 assets, 5-40 ops: direct UpdatePriceList samples and whole market.BeginBlocker runs "
              "with validation/discard flags and short rate lists; samples from {0,1,small,2^62,2^63-1,2^63,2^64-1,random}); "
              "non-trivial = some asset became active during the case; distinct by digest of (n, gap, op sequence). "
-             "thorough adds every sample sequence of length <= 7 over {0,3,2^63,2^64-1} for n in 1..3, gap in {0,40}",
-        modelled=["band oracle packet handling (samples are injected by writing the fetch result)", "uint64 arithmetic as Z (the 128-bit sum of the repaired CalculateTwa is exact)"],
-        assumptions=["window size n fixed within a case (the property fixes N)", "block heights positive and increasing"],
+             "thorough adds every sample sequence of length <= 7 over {0,3,2^63,2^64-1} for n in 1..3, gap in {0,40}. "
+             "band-pipeline: case = a block history of the whole pipeline on the real app: bandoracle.BeginBlocker + market.BeginBlocker per block "
+             "(20-block checks and blocks in between), OnAcknowledgementPacket / OnRecvPacket with real packets, the fetch-price proposal "
+             "(ValidateBasic + handler; n in 0..5, AcceptedHeightDiff in {-5,0,20,39,40,41,60,100}, script ids 7..9), AddAssetRecords; 30 fixed "
+             "histories first (outages of AcceptedHeightDiff-20 / exactly / +20 for gap in {40,60} x n in {1,2,3}, several outages, "
+             "re-registration with the same / another script and a changed window or gap, late results, check-flag reset during an outage), "
+             "then random histories of 8-37 rounds; after every step the bandoracle records and every Twa record are diffed and the extracted "
+             "holds_C17_pipe (window = ring of the last min(n,k) samples delivered since the last wipe, active only on a full window, "
+             "avg = their integer mean) and holds_C17_fresh judge the implementation's records; non-trivial = a price became active and a "
+             "band-level wipe of a non-empty store happened in the case",
+        modelled=["IBC transport (the arrival of an acknowledgement / a result packet is an injected op; the packets themselves are decoded by the real callbacks)",
+                  "FetchPrice (sending the next request) writes nothing the pipeline reads",
+                  "uint64 arithmetic as Z (the 128-bit sum of the repaired CalculateTwa is exact)"],
+        assumptions=["market-*: window size n fixed within a case (the property fixes N); band-pipeline: n changes only by a registration, which wipes every record",
+                     "block heights positive", "TwaBatchSize of a proposal is a uint64; Band's request ids are unique and non-zero (c17_pipe_fresh only)"],
     )
 
 MANIFEST = dict(
-    level_text="Ring-refinement invariant of the price window proved for every window size n>=1 and every finite history of samples / discard resets / validation failures (no panic, activation only on a full window, published value = integer mean of the last n samples). The two defects found on the original tree (window size 1 panic, uint64 wrap of the sum) were repaired by fix: commits b0fc61e and ba7bc26; the model follows the repaired code and their witnesses stay in the corpus. The model is tied to /repo by a differential run of UpdatePriceList and market.BeginBlocker on every check.",
-    design_ref="DESIGN.md section 4 C17",
-    level_note="Trusted: Coq kernel, extraction (ExtrOcamlBasic), OCaml runner, Go harness; band packet handling modelled by injecting fetch results. No axioms (Closed under the global context).",
-    technique="Coq proof (ring-refinement invariant by induction over histories) + model/implementation correspondence run",
+    level_text="Ring-refinement invariant of the price window proved for every window size n>=1 and every finite history of samples / discard resets / validation failures (no panic, activation only on a full window, published value = integer mean of the last n samples), and lifted to the whole pipeline block after block (Model/BandOracle.v: bandoracle.BeginBlocker with its request-id check and outage bookkeeping, then market.BeginBlocker; acknowledgements, results, fetch-price registration, asset registration): no block of any history panics, an active price is always the integer mean of N positive samples delivered after the last wipe, a registration leaves no Twa record, and the discard flag is raised exactly when the outage measured from the first silent check to the first answered check is >= AcceptedHeightDiff, in which case every stored window is reset before a sample is used. Three defects found earlier were repaired by fix: commits (window size 1 panic, uint64 wrap of the sum, window size >= 2^63); one known finding remains (C17-F4: an already consumed oracle result is re-delivered after a check-flag reset; class kf_C17_4, freshness proved outside it). The models are tied to /repo by differential runs of UpdatePriceList, market.BeginBlocker and the whole block pipeline on every check, and by regenerated definitions (tie C) of CalculateTwa, UpdatePriceList, GetLatestPrice and the request-id validation.",
+    design_ref="DESIGN.md section 4 C17, 10.2",
+    level_note="Trusted: Coq kernel, extraction (ExtrOcamlBasic), OCaml runner, Go harness; IBC transport modelled by injecting acknowledgement / result packets into the real callbacks. No axioms (Closed under the global context).",
+    technique="Coq proof (ring-refinement invariant by induction over histories; pipeline invariant by induction over block histories) + model/implementation correspondence run + regenerated definitions (tie C)",
 )
